@@ -4,7 +4,7 @@
 For each /verif/seeded/<name>/patch.diff: fresh scratch worktree of /repo,
 apply, run bin/corscheck for every claimed property (evidence goes to a
 scratch directory), record in meta.json which properties report it, remove
-the worktree.  usage: seeds.py [--only NAME] [--for Cxx] [--update] [-j N]
+the worktree.  usage: seeds.py [--only NAME] [--match SUBSTR] [--for Cxx] [--update] [-j N]
 """
 import json, os, shutil, subprocess, sys, tempfile
 
@@ -13,7 +13,7 @@ VERIF = "/verif"
 
 
 def run(cmd, cwd=None):
-    p = subprocess.run(cmd, cwd=cwd, env=ENV, stdout=subprocess.PIPE, stderr=subprocess.STDOUT, text=True)
+    p = subprocess.run(cmd, cwd=cwd, env=ENV, stdout=subprocess.PIPE, stderr=subprocess.STDOUT, text=True, errors="replace")
     return p.returncode, p.stdout
 
 
@@ -21,6 +21,7 @@ def main():
     args = sys.argv[1:]
     only = args[args.index("--only") + 1] if "--only" in args else None
     update = "--update" in args
+    match = args[args.index("--match") + 1] if "--match" in args else None
     only_for = args[args.index("--for") + 1] if "--for" in args else None
     json_out = args[args.index("--json") + 1] if "--json" in args else None
     results = []
@@ -32,6 +33,8 @@ def main():
     for name in sorted(os.listdir(os.path.join(VERIF, "seeded"))):
         d = os.path.join(VERIF, "seeded", name)
         if only and name != only or not os.path.exists(os.path.join(d, "patch.diff")):
+            continue
+        if match and match not in name:
             continue
         meta = json.load(open(os.path.join(d, "meta.json")))
         if only_for and meta["property"] != only_for:
